@@ -270,6 +270,28 @@ func (w *World) immutableArr(a string) bool {
 		for _, f := range w.Mod.immutableFields() {
 			w.immut[f] = true
 		}
+		// package-level variables which only package initialisers write (error values, tables)
+		written := map[string]bool{}
+		for f, ws := range w.Mod.computeGlobalWrites() {
+			isInit := f.Signature.Recv() == nil && f.Parent() == nil && strings.HasPrefix(f.Name(), "init")
+			for _, g := range ws {
+				if !isInit {
+					written[g.Global] = true
+				}
+			}
+		}
+		for _, p := range w.Prog.AllPackages() {
+			if !w.InRepo[p] {
+				continue
+			}
+			for _, m := range p.Members {
+				if g, ok := m.(*ssa.Global); ok {
+					if !written[g.Pkg.Pkg.Name()+"."+g.Name()] && !w.globalAddrEscapes(g) {
+						w.immut[arrGlobal(g)] = true
+					}
+				}
+			}
+		}
 	}
 	return w.immut[a]
 }
@@ -347,4 +369,51 @@ func (w *World) implementersAll(it types.Type) []types.Type {
 		}
 	}
 	return res
+}
+
+// hasFloatImpl: some named floating-point type of the program implements the interface.
+func (w *World) hasFloatImpl(it types.Type) bool {
+	key := "flt:" + types.TypeString(it, nil)
+	if r, ok := w.cmpCache[key]; ok {
+		return r
+	}
+	if w.cmpCache == nil {
+		w.cmpCache = map[string]bool{}
+	}
+	res := false
+	for _, t := range w.implementersAll(it) {
+		if b, ok := t.Underlying().(*types.Basic); ok && b.Info()&types.IsFloat != 0 {
+			res = true
+		}
+	}
+	w.cmpCache[key] = res
+	return res
+}
+
+// globalAddrEscapes: the address of the variable is used other than for loads and stores of it.
+func (w *World) globalAddrEscapes(g *ssa.Global) bool {
+	for _, f := range w.FuncList {
+		for _, b := range f.Blocks {
+			for _, ins := range b.Instrs {
+				var ops []*ssa.Value
+				ops = ins.Operands(ops)
+				for _, op := range ops {
+					if op == nil || *op != ssa.Value(g) {
+						continue
+					}
+					switch x := ins.(type) {
+					case *ssa.UnOp:
+					case *ssa.Store:
+						if x.Val == ssa.Value(g) {
+							return true
+						}
+					case *ssa.DebugRef:
+					default:
+						return true
+					}
+				}
+			}
+		}
+	}
+	return false
 }
